@@ -391,9 +391,14 @@ public:
   /// return the opposite gap. Similar to Indicator.
   template <class VarVec>
   Violation ComputeViolation(const VarVec& x) {
+    auto resvar = GetResultVar();
+    if (x.recomp_vals())              // idealistic mode, as for other
+      return                          // functional constraints:
+      { std::fabs(x[resvar] - x.raw(resvar))    // recomputed vs solver's
+            + std::max(0.0, x.bounds_viol(resvar)), x[resvar]};
     auto viol = GetConstraint().ComputeViolation(x);
     bool ccon_valid = viol.viol_<=0.0;
-    bool has_arg = x[GetResultVar()] >= 0.5;
+    bool has_arg = x[resvar] >= 0.5;
     switch (this->GetContext().GetValue()) {
     case Context::CTX_MIX:    // Viol is non-positive if holds
       if (has_arg == ccon_valid)
